@@ -151,6 +151,19 @@ def _load(prop_id: str):
 _PRISTINE: dict = {}
 
 
+def _preimport() -> None:
+    """Import (not run) everything the cases import lazily, so that the fresh forks start with warm sys.modules."""
+    for name in (
+        "scipy.linalg", "scipy.interpolate", "scipy.sparse.linalg", "pulser", "pulser.backend", "pulser_simulation",
+        "emu_base", "emu_base.math", "emu_sv", "emu_mps", "emu_mps.hamiltonian", "emu_mps.solver_utils", "emu_mps.optimatrix",
+        "mc.runner", "mc.seams", "mc.explore", "mc.autosave", "mc.mps_bfs", "mc.pulser_kit", "mc.ref.dense_ham", "mc.ref.noise_ref", "mc.ref.mps_dense",
+    ):
+        try:
+            importlib.import_module(name)
+        except Exception:  # noqa: BLE001 - a module that cannot be imported is the business of the case that needs it
+            pass
+
+
 def _reset_globals() -> None:
     """
     Module-level state outside the code under test that one execution can leak into the next (it would make a verdict depend on the
@@ -189,6 +202,50 @@ class HarnessError(Exception):
     pass
 
 
+def _run_isolated(items: list[tuple[str, int, dict]]) -> list[tuple[int, dict]]:
+    """
+    Execute the given cases one after the other in a FRESH fork of the calling process and return their results.
+    The driver never executes case code itself, so every such fork starts from the same pristine interpreter state.  Used for the
+    determinism self-test and to confirm violations: a failure that only shows after other cases ran in the same process (state the
+    code under test carries from one run to the next) is reproduced by replaying the worker's history, then reported with it.
+    """
+    import pickle
+
+    r, w = os.pipe()
+    pid = os.fork()
+    if pid == 0:
+        code = 0
+        try:
+            os.close(r)
+            out = [_run_one(it) for it in items]
+            with os.fdopen(w, "wb") as f:
+                pickle.dump(out, f)
+        except BaseException:  # noqa: BLE001 - the parent turns the empty pipe into a harness error
+            code = 1
+        finally:
+            os._exit(code)
+    os.close(w)
+    with os.fdopen(r, "rb") as f:
+        data = f.read()
+    _, status = os.waitpid(pid, 0)
+    if not data:
+        res = result(False, sig="HARNESS", msg=f"isolated child died without a result (wait status {status})")
+        res["harness"] = True
+        return [(it[1], dict(res)) for it in items]
+    return pickle.loads(data)
+
+
+_EXECUTED: list[int] = []  # indices of the cases this (long-lived) worker process has executed so far, in order
+
+
+def _run_tracked(args: tuple[str, int, dict]) -> tuple[int, dict, list[int]]:
+    """Pool entry point: run one case in the worker and, when it fails, say which cases the worker had executed before it."""
+    idx, res = _run_one(args)
+    before = list(_EXECUTED) if not res["ok"] else []
+    _EXECUTED.append(idx)
+    return idx, res, before
+
+
 # --------------------------------------------------------------------------------------------
 # known findings
 # --------------------------------------------------------------------------------------------
@@ -213,7 +270,8 @@ def load_known(prop_id: str) -> dict[str, str]:
 def run_check(prop_id: str, tier: str, seed: int, jobs: int | None = None) -> int:
     t0 = time.time()
     _quiet_torch()
-    mod = importlib.import_module(f"mc.props.{prop_id}")
+    mod = _load(prop_id)
+    _preimport()
     jobs = jobs or int(os.environ.get("VERIF_JOBS", "0")) or min(14, os.cpu_count() or 1)
     cases_iter: Iterable[dict] = mod.cases(tier, seed)
     budget_s = float(os.environ.get("VERIF_BUDGET_S", "0") or 0)
@@ -223,7 +281,7 @@ def run_check(prop_id: str, tier: str, seed: int, jobs: int | None = None) -> in
     evaluations = 0
     states = transitions = nontrivial = 0
     outcomes: dict[str, int] = {}
-    violations: list[tuple[int, dict, dict]] = []
+    violations: list[tuple[int, dict, dict, list[int]]] = []
     harness_errors: list[tuple[int, dict, dict]] = []
     samples: list[Any] = []
     first_cases: list[tuple[int, dict, str]] = []
@@ -244,7 +302,7 @@ def run_check(prop_id: str, tier: str, seed: int, jobs: int | None = None) -> in
 
     def consume(it):
         nonlocal n, states, transitions, nontrivial, capped, distinct_cases, evaluations
-        for idx, res in it:
+        for idx, res, prefix in it:
             n += 1
             evaluations += int(res.get("extra", {}).get("evaluations", 1))
             states += res["states"]
@@ -256,7 +314,7 @@ def run_check(prop_id: str, tier: str, seed: int, jobs: int | None = None) -> in
                 if res.get("harness"):
                     harness_errors.append((idx, keep.get(idx, {}), res))
                 else:
-                    violations.append((idx, keep.get(idx, {}), res))
+                    violations.append((idx, keep.get(idx, {}), res, prefix))
             if budget_s and time.time() - t0 > budget_s:
                 capped = True
                 break
@@ -276,7 +334,13 @@ def run_check(prop_id: str, tier: str, seed: int, jobs: int | None = None) -> in
             yield item
 
     if jobs == 1:
-        consume(map(_run_one, tracked()))
+        # debugging aid: one forked child runs everything in order (the driver itself never executes case code)
+        def serial():
+            for item in tracked():
+                ((idx, res),) = _run_isolated([item])
+                yield idx, res, []
+
+        consume(serial())
     else:
         import gc
 
@@ -286,7 +350,7 @@ def run_check(prop_id: str, tier: str, seed: int, jobs: int | None = None) -> in
         gc.freeze()
         ctx = mp.get_context("fork")
         with ctx.Pool(jobs) as pool:
-            consume(pool.imap_unordered(_run_one, tracked(), chunksize=chunk))
+            consume(pool.imap_unordered(_run_tracked, tracked(), chunksize=chunk))
             pool.terminate()
     distinct_cases = len(seen_case_keys)
 
@@ -294,8 +358,8 @@ def run_check(prop_id: str, tier: str, seed: int, jobs: int | None = None) -> in
     det = 0
     nondet: list[str] = []
     for i, c, _ in first_cases:
-        _, r1 = _run_one((prop_id, i, c))
-        _, r2 = _run_one((prop_id, i, c))
+        ((_, r1),) = _run_isolated([(prop_id, i, c)])
+        ((_, r2),) = _run_isolated([(prop_id, i, c)])
         det += 1
         if r1["outcome"] != r2["outcome"] or r1["ok"] != r2["ok"]:
             nondet.append(json.dumps(c, default=str)[:300])
@@ -307,7 +371,7 @@ def run_check(prop_id: str, tier: str, seed: int, jobs: int | None = None) -> in
     reported_sigs: set[str] = set()
     known_hit: dict[str, int] = {}
     new_violations = 0
-    for idx, case, res in violations:
+    for idx, case, res, prefix in violations:
         sig = res["sig"] or "unspecified"
         if sig in known:
             known_hit[sig] = known_hit.get(sig, 0) + 1
@@ -315,23 +379,39 @@ def run_check(prop_id: str, tier: str, seed: int, jobs: int | None = None) -> in
         new_violations += 1
         if sig in reported_sigs or len(reported_sigs) >= 8:
             continue
-        # confirm by replaying twice from the minimal artefact
-        _, ra = _run_one((prop_id, idx, case))
-        _, rb = _run_one((prop_id, idx, case))
-        if ra["ok"] or rb["ok"] or ra["outcome"] != rb["outcome"]:
-            harness_errors.append((idx, case, res))
-            continue
+        # confirm by replaying twice from the minimal artefact, each time in a fresh process
+        item = (prop_id, idx, case)
+
+        def fails(history):
+            (*_, (_, ra)) = _run_isolated(history + [item])
+            (*_, (_, rb)) = _run_isolated(history + [item])
+            return not ra["ok"] and not rb["ok"] and ra["outcome"] == rb["outcome"] and not ra.get("harness")
+
+        history: list[tuple[str, int, dict]] = []
+        if not fails([]):
+            # the case passes when it is the first thing a process does: does it fail after the cases its worker had executed before it?
+            full = [(prop_id, p, keep[p]) for p in prefix if p in keep]
+            if not full or not fails(full):
+                harness_errors.append((idx, case, res))
+                continue
+            history = full
+            for single in list(reversed(full))[:40]:  # shortest explanation first: one earlier run
+                if fails([single]):
+                    history = [single]
+                    break
+            while len(history) > 1 and fails(history[len(history) // 2 :]):  # otherwise keep halving while the later half suffices
+                history = history[len(history) // 2 :]
         reported_sigs.add(sig)
-        path = REPLAY_DIR / f"{prop_id}-{digest([sig, case])}.json"
-        path.write_text(
-            json.dumps(
-                {"property": prop_id, "signature": sig, "case": case, "message": res["msg"]},
-                indent=1,
-                default=str,
-            )
-        )
+        path = REPLAY_DIR / f"{prop_id}-{digest([sig, case, [h[2] for h in history]])}.json"
+        artefact = {"property": prop_id, "signature": sig, "case": case, "message": res["msg"]}
+        if history:
+            artefact["history"] = [h[2] for h in history]
+            artefact["note"] = "the case passes in a fresh process and fails after the cases of `history` ran in the same process: state is carried from one run to the next"
+        path.write_text(json.dumps(artefact, indent=1, default=str))
         lines.append(f"VIOLATION property={prop_id} replay={path}")
         lines.append(f"  signature: {sig}")
+        if history:
+            lines.append(f"  ORDER-DEPENDENT: passes in a fresh process, fails after {len(history)} earlier case(s) ran in the same process")
         lines.append(f"  {res['msg'][:1500]}")
         rc = 1
     for sig, cnt in known_hit.items():
@@ -371,6 +451,7 @@ def run_check(prop_id: str, tier: str, seed: int, jobs: int | None = None) -> in
             "bounds": bounds,
             "caps_hit": ["wall-clock budget VERIF_BUDGET_S"] if capped else [],
             "determinism_replays": det,
+            "isolation": "cases run in long-lived forked workers; every violation and the determinism self-test are re-executed twice in fresh forks of the driver, which never executes case code; a violation that needs earlier cases of its worker to reproduce is reported with that history",
             "known_findings_hit": known_hit,
             "known_findings_not_reproduced": stale,
             "explanation": "direct exploration of the implementation: every trace is an execution "
@@ -396,6 +477,8 @@ def run_check(prop_id: str, tier: str, seed: int, jobs: int | None = None) -> in
 def replay(path: str) -> int:
     data = json.loads(Path(path).read_text())
     prop_id = data["property"]
+    for k, h in enumerate(data.get("history", [])):  # earlier runs of the same process, see run_check
+        _run_one((prop_id, -1 - k, h))
     _, res = _run_one((prop_id, 0, data["case"]))
     print(json.dumps({k: res[k] for k in ("ok", "sig", "msg", "outcome")}, indent=1))
     if res.get("harness"):
